@@ -70,9 +70,18 @@ Section C20.
       forall ev e, In ev ext -> In e (touches ev) ->
         exists n, plain n = true /\ (e = (h_dir h, n) \/ e = (dest, n)) \/ (n = h_file h /\ (e = (h_dir h, n) \/ e = (dest, n))).
   Proof. intros h dest x x' ok. unfold do_move. apply C20_confined. apply rename_touch. Qed.
-  Theorem C20_non_plain_names_refused : forall op h dest x, forallb plain (h_listed h) = false ->
+  Theorem C20_non_plain_names_refused : forall op h dest x, listed_ok h = false ->
     transfer op h dest x = (x, false).
   Proof. exact C20_traversal_refused. Qed.
+  (* ... listed_ok: every listed name is a plain file name AND none of them is the control file itself.  A control file that
+     lists itself is refused before anything is touched - by Copy, Move and Remove (repair 7cf001d of the r13 finding: it was
+     copied / moved / removed as one of its own files, before the files listed after it) *)
+  Theorem C20_control_file_listing_itself_is_refused : forall op h dest x, In (h_file h) (h_listed h) ->
+    transfer op h dest x = (x, false) /\ do_remove fault h x = (x, false).
+  Proof.
+    intros op h dest x Hin. pose proof (listed_self_not_ok h Hin) as E. split; [now apply C20_traversal_refused|].
+    unfold do_remove. now rewrite E.
+  Qed.
 
   (* removal touches nothing but listed plain names and the control file, in the handle's own directory, and leaves
      every other directory as it was; when it succeeds none of those files is left *)
